@@ -167,6 +167,55 @@ func casesC05(g *Gen) []*Case {
 			add(ch)
 		}
 	}
+	// two different text runs of one length whose usual 32-bit checksums are equal
+	for _, col := range collidingPairs("c05", numShape("</td><td class=\"c", "\">")) {
+		src := col.a + "{{ 1 }}" + col.b + "{{ 2 }}" + col.a + "@if(true)" + col.b + "@end"
+		c := evalCase("checksum_twins", src, nil)
+		c.Oracle = expectOut(col.a + "1" + col.b + "2" + col.a + col.b)
+		c.Tags = []string{col.fn}
+		add(c)
+	}
+	// directive names in another letter case are text (or a shorter directive followed by text)
+	for _, kw := range directiveKeywords {
+		vars := map[string]bool{}
+		name := kw[1:]
+		vars["@"+strings.ToUpper(name)] = true
+		vars["@"+strings.ToUpper(name[:1])+name[1:]] = true
+		vars["@"+strings.ToLower(name)] = true
+		for i := 1; i < len(name); i++ {
+			vars["@"+name[:i]+strings.ToUpper(name[i:i+1])+name[i+1:]] = true
+			vars["@"+name[:i]+strings.ToLower(name[i:i+1])+name[i+1:]] = true
+		}
+		for v := range vars {
+			if containsStr(directiveKeywords, v) {
+				continue
+			}
+			// the longest directive the variant starts with (then the rest is text after that directive)
+			pre := ""
+			for _, d := range directiveKeywords {
+				if strings.HasPrefix(v, d) && len(d) > len(pre) {
+					pre = d
+				}
+			}
+			for _, src := range []string{v + "(true)b", "@each(v in [1, 2])" + v + "(v == 1)z@end"} {
+				add(evalCase("directive_other_case", src, nil))
+			}
+			type ex struct{ src, want string }
+			var exs []ex
+			switch pre {
+			case "":
+				exs = []ex{{"x " + v + " y", "x " + v + " y"}, {"@if(true)" + v + "@end", v}, {"@if(false)a" + v + "(true)b@end", ""}, {"@if(true)a" + v + "(false)b@end", "a" + v + "(false)b"}}
+			case "@else":
+				rest := v[len("@else"):]
+				exs = []ex{{"@if(false)a" + v + "(true)b@end", rest + "(true)b"}, {"@if(true)a" + v + "(true)b@end", "a"}}
+			}
+			for _, e := range exs {
+				c := evalCase("directive_other_case", e.src, nil)
+				c.Oracle = expectOut(e.want)
+				add(c)
+			}
+		}
+	}
 	// text that starts with a parenthesis right after a directive that takes none
 	for src, want := range map[string]string{
 		"@if(true)yes@end(ok)": "yes(ok)", "@if(false)a@else(b)@end": "(b)", "@each(v in [1, 2])@break(x)@end!": "!", "@each(v in [1, 2])@continue(x)@end!": "!",
@@ -531,7 +580,9 @@ func casesC19(g *Gen) []*Case {
 		add("templates", g.template(stdScope(), 3))
 	}
 	// inside code: token soups between {{ }}
-	code := []string{"1", "2.5", "\"s\"", "'t'", "x", "name", "+", "-", "*", "/", "%", "++", "--", "==", "!=", "<", ">", "<=", ">=", "!", "=", "?", ":", ",", ".", ";", "(", ")", "[", "]", "{", "}", " ", "\n", "\t", "\r\n", "true", "nil", "in", "$", "#", "\"a\nb\"", "\"q\\\"q\"", "é"}
+	code := []string{"1", "2.5", "\"s\"", "'t'", "x", "name", "+", "-", "*", "/", "%", "++", "--", "==", "!=", "<", ">", "<=", ">=", "!", "=", "?", ":", ",", ".", ";", "(", ")", "[", "]", "{", "}", " ", "\n", "\t", "\r\n", "true", "nil", "in", "$", "#", "\"a\nb\"", "\"q\\\"q\"", "é",
+		// bytes and characters that some notion of white space includes and the lexer's does not
+		"\v", "\f", "à", "Å", "Р", "х", "\x85", "\xa0", "\u0085", "\u00a0", "\u2003", "\u3000", "\x00", "\x1c", "\ufeff"}
 	for i := 0; i < g.scale(8000, 200000); i++ {
 		pre := g.pick([]string{"", "ab\n", "é ", "\n\n"})
 		add("code_soup", pre+"{{ "+g.sigmaRandom(code, 10)+" }}"+g.pick([]string{"", "z", "\n@end"}))
@@ -589,6 +640,32 @@ func casesC08(g *Gen) []*Case {
 		c.Trivial = len(s) == 0
 		c.Timeout = 0
 		cs = append(cs, c)
+	}
+	// degenerate names of layouts and components: loading returns with an error
+	for _, bad := range []string{`@use("~")`, `@component("~")`, `@use("~/")`, `@use("")`, `@component("")`, `@component("~/")`, `@use("~~")`, `@use("/")`, `@component("/")`,
+		`@use(".")`, `@component("..")`, `@insert("")x@end`, `@use("~")@insert("a")x@end`, `@component("~")@slot("")y@end@end`, `@reserve("")`, `@each(v in [1])@component("~")@end`} {
+		t := newTree()
+		t.files["tpl/p.tw"] = bad
+		t.dirs = []string{"tpl/layouts", "tpl/components"}
+		c := histCase("degenerate_names", t, []string{opNew("tpl", ".tw", "", false), opStr("p", nil)}, "NewTemplate over a page holding "+bad)
+		c.Oracle = func(c *Case, impl string) string {
+			for _, r := range results(impl) {
+				if !(strings.HasPrefix(r, "NEWOK") || strings.HasPrefix(r, "NEWERR ") || strings.HasPrefix(r, "OK") || strings.HasPrefix(r, "ERR ") || strings.HasPrefix(r, "OSERR ") || r == "NOTPL") {
+					return "loading and rendering must return a result or an error: " + clip(r, 200)
+				}
+			}
+			return ""
+		}
+		cs = append(cs, c)
+		c2 := evalCase("degenerate_names", bad, nil)
+		c2.Oracle = oracleC08(false)
+		cs = append(cs, c2)
+	}
+	// numbers cut off inside an exponent or a fraction, at the end of the input and inside code
+	for _, num := range []string{"1e", "1e+", "1e-", "2.5E", "2.5E-", "3e-", "1e6", "2.5E-3", "1.", "1.e", "1e1e", ".5", "1..2", "0x", "0x1F", "1_000", "1e+x", "9e999"} {
+		for _, frame := range []string{"{{ %s", "{{ %s }}", "@if(n > %s", "@if(n > %s)y@end", "{{ [%s", "{{ x.f(%s", "@dump(%s"} {
+			add("cut_numbers", fmt.Sprintf(frame, num), false)
+		}
 	}
 	lexemes := []string{"@if(", "@if(true)", "@elseif(", "@elseif(true)", "@else", "@end", "@each(", "@each(v in a3)", "@for(", "@for(i = 0; i < 2; i++)",
 		"@break", "@continue", "@breakIf(", "@breakIf(true)", "@continueIf(false)", "@dump(", "@dump(1)", "@use(", "@use(\"x\")", "@reserve(\"r\")", "@insert(", "@insert(\"r\")", "@insert(\"r\", 1)",
